@@ -31,8 +31,8 @@ const char* kBehaviours[] = { "orderly", "close-mid-request", "half-close", "rst
                               "silence-close-near-timeout", "silence-abort-near-timeout", "stall-beyond-timeout",
                               "abandon-at-once-close", "abandon-at-once-abort", "abandon-at-once-half-close",
                               "tmo-then-close", "tmo-then-abort", "stall-resume-trickle", "request-then-abort-quickly", "async-close", "tmo-moved",
-                              "stall-then-leave", "stream-then-abort-quickly" };
-constexpr int kNumBeh = 29;
+                              "stall-then-leave", "stream-then-abort-quickly", "busy", "tmo-park", "notify" };
+constexpr int kNumBeh = 32;
 
 Json gen(sim::Rng& rng, int tier)
 {
@@ -52,7 +52,11 @@ Json gen(sim::Rng& rng, int tier)
     int mixk = static_cast<int>(rng.below(10));
     //  idle-race:  connections whose reader stalls beyond the idle time-out and that leave while the idle scan's 408 is still
     //              queued behind the blocked response, followed (next round, same descriptor numbers) by silent connections
-    std::string mix = mixk == 0 ? "async-race" : mixk == 1 ? "flush-race" : mixk == 2 ? "idle-race" : "";
+    //  busy-race:  one worker that sits in a slow handler while other things happen, so that it comes back to a batch of
+    //              events: (a) the idle scan's tick and then the FIN of the silent connection it is about to time out;
+    //              (b) long-poll style - the request that completes a parked response, a request that parks with a new
+    //              time-out, and the expiry of the first parked response's timer, in that order
+    std::string mix = mixk == 0 ? "async-race" : mixk == 1 ? "flush-race" : mixk == 2 ? "idle-race" : mixk == 3 ? "busy-race" : "";
     static const char* kIdleRace[] = { "stall-then-leave", "stall-then-leave", "stall-then-leave", "silence", "silence", "partial-then-silence", "orderly" };
     static const char* kAsyncRace[] = { "async-abort", "async-abort", "async-close", "orderly" };
     static const char* kFlushRace[] = { "stream", "stream-then-abort-quickly", "request-then-abort-quickly", "request-then-abort-quickly", "rst-unread", "orderly" };
@@ -61,9 +65,52 @@ Json gen(sim::Rng& rng, int tier)
         p["mode"] = "http";
         if (mix == "flush-race") p["workers"] = 1;
         if (mix == "idle-race") rounds = std::max(rounds, 2);
+        if (mix == "busy-race") {
+            p["workers"] = 1;
+            p["body_timeout_ms"] = p.num("header_timeout_ms", 2000);
+        }
     }
     for (int r = 0; r < rounds; ++r) {
         Json conns = Json::array();
+        if (mix == "busy-race") {
+            // (connections are made at once; start_us is when the connection sends - a connection that is made late is seen by the
+            // worker only after the hand-over from the acceptor, which would put its request behind everything else)
+            auto mk = [&](const char* beh, long start_us, long dur_us, long ms) {
+                Json c = Json::object();
+                c["behaviour"] = beh;
+                c["tag"] = static_cast<long long>(++tag);
+                c["requests"] = 1;
+                c["size"] = dur_us;      // busy: how long the handler computes, in microseconds
+                c["ms"] = ms;            // tmo-park: the response time-out
+                c["cut_permille"] = static_cast<int>(rng.below(1000));
+                c["start_us"] = static_cast<long>(rng.below(1000));
+                c["delay_us"] = start_us;
+                c["sndbuf"] = 65536L;
+                c["near_ms"] = static_cast<int>(rng.below(650));
+                conns.push(c);
+            };
+            long hto_us = static_cast<long>(p.num("header_timeout_ms", 2000)) * 1000;
+            if (rng.chance(0.5)) {
+                // (a)
+                int ns = static_cast<int>(rng.range(1, 2));
+                for (int i = 0; i < ns; ++i) mk("silence-close-near-timeout", static_cast<long>(rng.below(2000)), 0, 0);
+                mk("busy", hto_us - 150000 + static_cast<long>(rng.below(100000)), 800000 + static_cast<long>(rng.below(300000)), 0);
+            } else {
+                // (b) times relative to t0
+                long t0 = static_cast<long>(rng.below(3000));
+                long ms1 = static_cast<long>(100 + rng.below(150));
+                mk("tmo-park", t0, 0, ms1);
+                long busy_at = t0 + 5000 + static_cast<long>(rng.below(30000));
+                long busy_len = ms1 * 1000 + static_cast<long>(50000 + rng.below(200000));
+                mk("busy", busy_at, busy_len, 0);
+                long notify_at = busy_at + 5000 + static_cast<long>(rng.below(static_cast<u64>(std::max<long>(1, ms1 * 1000 - (busy_at - t0) - 20000))));
+                mk("notify", notify_at, 0, 0);
+                mk("tmo-park", notify_at + 2000 + static_cast<long>(rng.below(20000)), 0, static_cast<long>(100 + rng.below(300)));
+                if (rng.chance(0.5)) mk("orderly", static_cast<long>(rng.below(3000)), 0, 0);
+            }
+            jr.push(conns);
+            continue;
+        }
         int n = static_cast<int>(rng.range(mix.empty() ? 1 : 2, tier ? 6 : 4));
         for (int i = 0; i < n; ++i) {
             Json c = Json::object();
@@ -255,6 +302,22 @@ void run(const Json& plan)
                 st.push_back(httpw::send_step(req("/stream/8/" + std::to_string(std::min<long>(size, 5000) + 1) + "/" + tag)));
                 st.push_back(httpw::step(Step::Pause, delay % 300000));
                 st.push_back(httpw::step(Step::Abort));
+            } else if (b == "busy") {
+                st.push_back(httpw::step(Step::Pause, delay));
+                st.push_back(httpw::send_step(req("/busy/" + std::to_string(std::max<long>(1, std::min<long>(size, 3000000))) + "/" + tag)));
+                st.push_back(httpw::step(Step::Await, kAwait + 3000LL * 1000000LL, 1));
+                st.push_back(httpw::step(Step::Close));
+            } else if (b == "tmo-park") {
+                // parks with a response time-out; answered by /notify or by the time-out
+                st.push_back(httpw::step(Step::Pause, delay));
+                st.push_back(httpw::send_step(req("/tmo/" + std::to_string(std::max<i64>(20, c.num("ms", 200))) + "/" + tag)));
+                st.push_back(httpw::step(Step::Await, kAwait + 3000LL * 1000000LL, 1));
+                st.push_back(httpw::step(Step::Close));
+            } else if (b == "notify") {
+                st.push_back(httpw::step(Step::Pause, delay));
+                st.push_back(httpw::send_step(req("/notify/" + tag)));
+                st.push_back(httpw::step(Step::Await, kAwait + 3000LL * 1000000LL, 1));
+                st.push_back(httpw::step(Step::Close));
             } else if (b == "silence") {
                 st.push_back(httpw::step(Step::AwaitClose, (std::max(hto, bto) + 2000) * 1000000LL));
                 st.push_back(httpw::step(Step::Close));
@@ -421,6 +484,13 @@ void run(const Json& plan)
                              || (stc.reset && stc.reset_at >= 0 && stc.reset_at <= stc.connected_at + (std::max(hto, bto) + 1500) * 1000000LL);
             if (!by_server)
                 r.violation("C08.idle:silent-connection-not-released-by-the-idle-time-out:" + cp.behaviour, "a connection that sent " + std::string(cp.behaviour == "silence" ? "nothing" : "part of a request") + " and then stayed silent was still held by the server " + std::to_string(std::max(hto, bto) + 1500) + " ms after it was accepted (time-outs " + std::to_string(hto) + "/" + std::to_string(bto) + " ms); only the client's own close released it");
+        }
+    // (1c) a request parked with an armed response time-out is answered: by whoever completes it, or by the time-out
+    if (http)
+        for (auto& cp : all) {
+            if (cp.behaviour != "tmo-park" || !cp.client->st.connected || cp.client->reader.broken) continue;
+            if (cp.client->responses() == 0)
+                r.violation("C08.timer:armed-time-out-never-fired:tmo-park", "a request whose handler armed the response time-out and parked the response was answered neither by the handler nor by the time-out (the armed timer was lost)");
         }
     // (2) every descriptor released exactly once
     for (auto& a : simk::anomalies()) {
